@@ -209,8 +209,15 @@ func c15(cx *Ctx, r *ev.Report) {
 			names[0], names[1] = names[1], names[0]
 		}
 		deq := c.Atom("DeepEqual("+strings.Join(names, ",")+")", 1)[0]
-		m.compare(r, "C15/map-type/func=MapMemory.Equal", "EQUAL: false unless the argument is a MapMemory; otherwise reflect.DeepEqual(receiver, argument) (which distinguishes nil from empty maps and compares contents)",
-			dom.NewTrace(c), dom.BV{c.M.And(okb, deq)})
+		ruleE := "EQUAL: false unless the argument is a MapMemory; otherwise reflect.DeepEqual(receiver, argument) (which distinguishes nil from empty maps and compares contents)"
+		if len(m.in.Loops) == 1 {
+			// hand-written comparison: decided by the entry-wise idiom
+			det := c15Entrywise(m, an, okb)
+			r.Check(len(det) == 0, "C15/map-type/func=MapMemory.Equal", ruleE+" - here by ENTRYWISE: same nil-ness, same length, and every ranged entry of one map is present with the same value in the other (then the maps are equal as sets of entries); true on no other path", cx.P.Pos(m.fn.Pos()), "summary-equality", det...)
+		} else {
+			m.compare(r, "C15/map-type/func=MapMemory.Equal", ruleE,
+				dom.NewTrace(c), dom.BV{c.M.And(okb, deq)})
+		}
 	} else {
 		r.Undecide("C15/map-type/func=MapMemory.Equal", "EQUAL", "", m.err.Error())
 	}
@@ -384,4 +391,75 @@ func c15Loop(cx *Ctx, r *ev.Report, method string) {
 	} else {
 		r.Hold(key, rule, pos, "summary-equality")
 	}
+}
+
+// c15Entrywise decides a loop-based MapMemory.Equal: with X the ranged map and
+// Y the other one, the function must return true exactly when the argument is
+// a MapMemory, X and Y agree in nil-ness and length, and the loop runs to
+// exhaustion, where an iteration continues iff Y holds the ranged key with the
+// ranged value.  |X| = |Y| and X a subset of Y give X = Y.
+func c15Entrywise(m *memRun, an string, okb bdd.Node) []string {
+	c := m.c
+	M := c.M
+	ls := m.in.Loops[0]
+	var det []string
+	var x, y string
+	for _, cand := range [][2]string{{"recv", an}, {an, "recv"}} {
+		for _, a := range c.AtomsIn(ls.BackPred) {
+			if a == "range#1("+cand[0]+").more" {
+				x, y = cand[0], cand[1]
+			}
+		}
+	}
+	if x == "" {
+		return []string{"the loop does not range over the receiver or the argument"}
+	}
+	pre := "range#1(" + x + ")"
+	more := c.Atom(pre+".more", 1)[0]
+	key := c.Atom(pre+".key", 16)
+	val := c.Atom(pre+".value", 8)
+	exp := dom.NewTrace(c)
+	got := exp.Emit(M.And(ls.EntryPred, more), "map.get", y, []dom.BV{key}, 9, "ref")
+	for _, d := range c.DiffMultiset(m.tr.MultisetChar(nil), exp.MultisetChar(nil)) {
+		det = append(det, "storage accesses of one iteration: "+d)
+	}
+	if len(ls.StoreChanged) > 0 {
+		det = append(det, "the loop body changes "+strings.Join(ls.StoreChanged, ", "))
+	}
+	nilX, nilY := c.Atom("IsNil("+x+")", 1)[0], c.Atom("IsNil("+y+")", 1)[0]
+	w := m.intW()
+	lenOf := func(n string) dom.BV { return c.Zext(c.Atom("len("+n+")", w-1), w) }
+	lenEq := c.Eq(lenOf(x), lenOf(y))
+	lenZero := c.IsZero(lenOf(x))
+	// a nil map has length 0, and a nil map is not ranged over
+	care := M.And(M.And(M.Or(M.Not(nilX), lenZero), M.Or(M.Not(nilY), c.IsZero(lenOf(y)))), M.Or(M.Not(nilX), M.Not(more)))
+	pre0 := M.And(okb, M.And(M.Not(M.Xor(nilX, nilY)), lenEq))
+	entry := ls.EntryPred
+	good := M.And(M.Not(nilY), M.And(got[8], c.Eq(got.Slice(0, 8), val)))
+	cont := M.And(entry, M.And(more, good))
+	say := func(cond bdd.Node, msg string) {
+		cond = M.And(cond, care)
+		if cond != bdd.False {
+			wit, _ := c.Witness(cond)
+			det = append(det, msg+" - e.g. {"+strings.Join(c.DescribeAssignment(wit), " ")+"}")
+		}
+	}
+	say(M.Xor(ls.BackPred, cont), "an iteration must continue exactly when the other map holds the ranged key with the ranged value")
+	say(M.And(entry, M.Not(pre0)), "the loop is entered although the argument is not a MapMemory, or nil-ness or lengths differ")
+	say(M.And(M.Not(entry), M.And(pre0, M.Not(lenZero))), "with equal nil-ness and equal non-zero lengths the entries are not compared")
+	want := M.Or(M.And(M.Not(entry), M.And(pre0, lenZero)), M.And(entry, M.Not(more)))
+	// the merged result on every path that returns (on 'cont' the loop goes round)
+	if bv, ok := m.res.(dom.BV); !ok || len(bv) != 1 {
+		det = append(det, "the result is not a boolean")
+	} else {
+		say(M.And(M.Not(cont), M.Xor(bv[0], want)), "wrong result")
+	}
+	if len(det) > 0 {
+		var evs []string
+		for i := range m.tr.Events {
+			evs = append(evs, c.DescribeEvent(&m.tr.Events[i]))
+		}
+		det = append(det, "implementation (one iteration): "+strings.Join(evs, "; "))
+	}
+	return det
 }
